@@ -268,7 +268,7 @@ func TestC11(t *testing.T) {
 			case 24:
 				// clauses whose first sub-clause keeps every row: the next one works on the frame's own rows
 				k := rapid.IntRange(-2, 3).Draw(t, "nullandk")
-				shape := rapid.IntRange(0, 2).Draw(t, "nullandshape")
+				shape := rapid.IntRange(0, 5).Draw(t, "nullandshape")
 				makers[i] = opMaker{desc: fmt.Sprintf("%s.Filter(And(Null-ish, i1 > %d)) shape %d", mn, k, shape), mk: func(f family) func() string {
 					return func() string {
 						leaf := qframe.Filter{Column: "i1", Comparator: ">", Arg: k}
@@ -278,8 +278,15 @@ func TestC11(t *testing.T) {
 							cl = qframe.And(qframe.Null(), leaf)
 						case 1:
 							cl = qframe.And(qframe.And(qframe.Null()), leaf, qframe.Filter{Column: "id", Comparator: ">=", Arg: 0})
-						default:
+						case 2:
 							cl = qframe.And(qframe.Or(qframe.Null()), qframe.Null(), leaf)
+						case 3:
+							// (the complement of a composite clause that matches nothing keeps every row as well)
+							cl = qframe.And(qframe.Not(qframe.And(qframe.Filter{Column: "id", Comparator: "<", Arg: 0})), leaf)
+						case 4:
+							cl = qframe.And(qframe.Not(qframe.Or(qframe.Filter{Column: "id", Comparator: "<", Arg: 0}, qframe.Filter{Column: "id", Comparator: ">", Arg: 1 << 40})), leaf, qframe.Filter{Column: "id", Comparator: ">=", Arg: 1})
+						default:
+							cl = qframe.And(qframe.Filter{Column: "id", Comparator: ">=", Arg: 0}, qframe.Not(qframe.And(qframe.Filter{Column: "id", Comparator: "<", Arg: 0})), leaf)
 						}
 						return snapFrame(f.members[mi].Filter(cl))
 					}
